@@ -440,7 +440,10 @@ def run(ctx):
                 except cmpeval.Unknown:
                     continue
                 if tt == {"lt": True, "eq": False, "gt": True}:
-                    if all(".len()" in a for a in ats) and any("target" in a for a in ats) and any("expected" in a or "source" in a for a in ats):
+                    # (a count is a len() or a local holding an `.iter()..count()` / `.len()` of the listing it is named after)
+                    lets_v = {l["pat"]["name"]: hirq.render(l["init"]) for l in hirq.find(body, "let") if l["pat"].get("k") == "bind" and l.get("init") is not None}
+                    ats_x = [a + " " + lets_v.get(a, "") for a in ats]
+                    if all(re.search(r"\.len\(\)|\.count\(\)", a) for a in ats_x) and any("target" in a for a in ats_x) and any("expected" in a or "source" in a for a in ats_x):
                         count_ok = True
                     elif any("source" in a for a in ats) and any("target" in a for a in ats):
                         bytes_ok = True
